@@ -75,7 +75,38 @@ def gen(tier, rng):
                 ops.append("it")
         ops.append("it")
         cases.append("ctx " + ",".join(ops))
+    # parameter sets of every shape (chroma formats, bit depths, PPS with transform-8x8 / scaling lists / slice groups):
+    # an SPS replaced by one of another shape while PPSs naming it are stored - the two stores are independent
+    for _ in range(500 if tier == "quick" else 10000):
+        ops, known = [], {}
+        for _ in range(rng.randrange(2, 10)):
+            c = rng.random()
+            if c < 0.4 or not known:
+                i = rng.choice([0, 0, 1, 31])
+                force = {"profile_idc": rng.choice([66, 100, 244, 244]), "chroma_format_idc": rng.choice([0, 1, 2, 3, 3])}
+                s = g.gen_sps(rng, sps_id=i, small=True, force=force)
+                known[i] = s
+                ops.append("S" + hx(g.sps_nal(s, rng)))
+            elif c < 0.8:
+                s = known[rng.choice(sorted(known))]
+                p = g.gen_pps(rng, s, pps_id=rng.choice([0, 1, 2, 255]))
+                if rng.random() < 0.6:
+                    p["ext"], p["transform8x8"], p["pic_scaling_matrix"] = True, True, True
+                ops.append("P" + hx(g.pps_nal(p, rng)))
+            elif c < 0.9:
+                ops.append("gp%d" % rng.choice([0, 1, 2, 255]))
+            else:
+                ops.append("it")
+        ops += ["gp0", "gp1", "gp2", "gp255", "gs0", "gs1", "gs31", "it"]
+        cases.append("ctx " + ",".join(ops))
     return cases
+
+
+def extra_check(r):
+    """the other Iterator entry points of Context::sps() / pps() agree with next()"""
+    if "alt=" in r["dev"]:
+        return ("value", "an iterator entry point other than next() disagrees with next(): " + r["dev"].split("alt=")[1][:200])
+    return None
 
 
 def nontrivial(r):
